@@ -218,6 +218,9 @@ def register(M, h):
             idx = None
         else:
             idx = as_vec(interp, index, node)
+        if idx is not None and idx.kind in ('nd', 'ma', 'series'):
+            # library fact: whatever array is given as index becomes a pandas Index (a DatetimeIndex for datetime64 data)
+            idx = idx.like([El(X.NAN if e.m is True else e.d, False) for e in idx.els()], kind='dtindex' if idx.dtype == 'M8' else 'index', index=None)
         if data is None:
             code, unit = parse_dtype(interp, dtype, node) if dtype is not None else ('O', None)
             return Vec.fresh([], kind='series', dtype=code, unit=unit, index=idx)
